@@ -13,7 +13,8 @@ RULE = ("S-PROG fault injection: an accepted random program (all profiles) gets 
         "constant or register default reading a wire, malformed bank name, partially connected component, output of an "
         "unconnected component read - at a random position among the other statements. Compared: accept/reject and the "
         "multiset of (kind, name) with the Lean model of Program::new; accept/reject with Spec.faults; and the diagnostics "
-        "must name the injected wire. distinct = program texts; non-trivial = all.")
+        "must name the injected wire; the rendered text of every rejection must contain, in quotes, every wire name its "
+        "diagnostics carry (all kinds except the one that lists a component's inputs). distinct = program texts; non-trivial = all.")
 
 
 def judge(req, impl, model, spec):
